@@ -86,6 +86,80 @@ pub struct ByteCase {
     pub byte: usize,
     /// restrict to one mutant: (bit offset 0..8, burst length 1..=8, interior pattern)
     pub only: Option<(u8, u8, u8)>,
+    /// only single-bit flips, 2-bit bursts and the two extreme 8-bit bursts (large frames)
+    #[serde(default)]
+    pub sparse: bool,
+}
+
+/// Streams whose consecutive frames are (nearly) identical: piecewise-constant levels that differ in one or
+/// a few adjacent bits, and a noise block repeated with a one-sample change under a verbatim-only
+/// configuration, so that a short burst can turn one frame body into a copy of its neighbour.
+pub fn near_repeat_streams() -> Vec<StreamCase> {
+    use crate::gen::{ChanSpec, CfgSpec, InputSpec};
+    let mut v = vec![];
+    let mk = |cfg: CfgSpec, channels: usize, bps: usize, samples: Vec<i32>, seed: u64| {
+        let len = samples.len() / channels;
+        StreamCase { cfg, inp: InputSpec { channels, bps, rate: 16000, len, chans: vec![ChanSpec { segs: vec![] }; channels], rel: 0, seed, explicit: Some(samples) }, entry: Entry::Single, src: crate::enc::SrcKind::Mem }
+    };
+    let mut dflt = CfgSpec::default();
+    dflt.block_size = 32;
+    let mut verb = dflt.clone();
+    verb.use_constant = false;
+    verb.use_fixed = false;
+    verb.use_lpc = false;
+    verb.ls = false;
+    verb.rs = false;
+    verb.ms = false;
+    // constant blocks: levels 5, 4, 4, 7, -1, 0
+    for (k, (channels, bps)) in [(1usize, 8usize), (2, 16), (1, 12)].into_iter().enumerate() {
+        let levels = [5i32, 4, 4, 7, -1, 0];
+        let mut s = vec![];
+        for l in levels {
+            for _ in 0..32 {
+                for c in 0..channels {
+                    s.push(if c == 0 { l } else { 3 });
+                }
+            }
+        }
+        v.push(mk(dflt.clone(), channels, bps, s, 7000 + k as u64));
+    }
+    // a noise block repeated; repeats differ from their predecessor in one sample by one / a few low bits
+    for (k, (channels, bps)) in [(1usize, 8usize), (2, 8), (1, 16)].into_iter().enumerate() {
+        let mut r = Sm64::new(77 + k as u64);
+        let lo = -(1i64 << (bps - 1));
+        let hi = (1i64 << (bps - 1)) - 1;
+        let blk: Vec<i32> = (0..32 * channels).map(|_| r.range_i64(lo / 2, hi / 2) as i32).collect();
+        let mut s = vec![];
+        let mut cur = blk.clone();
+        for f in 0..4usize {
+            if f == 1 {
+                cur[5 * channels] ^= 1;
+            } else if f == 2 {
+                cur[17 * channels + channels - 1] ^= 6;
+            }
+            // f == 3: exact repeat of frame 2
+            s.extend_from_slice(&cur);
+        }
+        v.push(mk(verb.clone(), channels, bps, s, 7100 + k as u64));
+    }
+    v
+}
+
+/// A stream with frames of 64 KiB and more (largest block sizes, incompressible wide input).
+pub fn large_frame_streams() -> Vec<StreamCase> {
+    use crate::gen::{ChanSpec, CfgSpec, InputSpec};
+    let mut v = vec![];
+    for (k, (channels, bps, block)) in [(2usize, 24usize, 16384usize), (1, 16, 32767), (3, 24, 32767)].into_iter().enumerate() {
+        let mut cfg = CfgSpec::default();
+        cfg.block_size = block;
+        let mut r = Sm64::new(9100 + k as u64);
+        let lo = -(1i64 << (bps - 1));
+        let hi = (1i64 << (bps - 1)) - 1;
+        let len = block + 40;
+        let samples: Vec<i32> = (0..len * channels).map(|_| r.range_i64(lo, hi) as i32).collect();
+        v.push(StreamCase { cfg, inp: InputSpec { channels, bps, rate: 48000, len, chans: vec![ChanSpec { segs: vec![] }; channels], rel: 0, seed: 9100 + k as u64, explicit: Some(samples) }, entry: Entry::Single, src: crate::enc::SrcKind::Mem });
+    }
+    v
 }
 
 /// All single-bit flips and all bursts of length 2..=8 starting in byte `byte`, plus truncation there.
@@ -111,6 +185,9 @@ pub fn check_byte(case: &ByteCase) -> Outcome {
                     if o != (off, len, pat as u8) {
                         continue;
                     }
+                }
+                if case.sparse && !(len <= 2 || (len == 8 && (pat == 0 || pat == npat - 1))) {
+                    continue;
                 }
                 let start = case.byte * 8 + off as usize;
                 if start + len as usize > nbits {
@@ -357,7 +434,7 @@ pub fn small_stream(i: u64) -> StreamCase {
 
 pub fn run(ctx: &Ctx) {
     ctx.rule(
-        "fault enumeration on small emitted streams (8 crafted streams in quick, + generated ones in thorough; mono/stereo, all subframe kinds, 1..=4 frames; plus the head and the last six frames of a 130-frame stream, whose frame numbers need two bytes): at EVERY byte position every single-bit flip and every burst of length 2..=8 (first and last bit flipped, all interior patterns) at every bit offset, and truncation at every byte; \
+        "fault enumeration on small emitted streams (8 crafted streams in quick, + generated ones in thorough; mono/stereo, all subframe kinds, 1..=4 frames; plus the head and the last six frames of a 130-frame stream, whose frame numbers need two bytes; plus 6 streams whose consecutive frames are identical or one short burst apart - constant levels 5/4/4/7/-1/0, a repeated noise block with one-sample changes under a verbatim-only configuration): at EVERY byte position every single-bit flip and every burst of length 2..=8 (first and last bit flipped, all interior patterns) at every bit offset, and truncation at every byte; for a stream with a 98 KiB frame (thorough: also 64 KiB and 290 KiB frames) the same at ~200 sampled byte positions per frame (header, CRC, around offsets 2^16 and 2^17, spread) with the burst set {1 bit, 2 bits, 8 bits with all / no interior bits}; \
          oracle: catch_unwind(parser::stream) never unwinds; if the mutant is accepted its frames decode without panic and, when all altered bits lie inside one frame, to the original audio; \
          second part (panic oracle only): random byte strings and structure-aware mutations of frames with CRC-8/CRC-16 recomputed so that the code behind the checksums is reached; \
          evaluations = number of mutants parsed; non-trivial = alteration inside a frame that leaves the sync code intact; distinct by (stream, byte position)",
@@ -368,7 +445,7 @@ pub fn run(ctx: &Ctx) {
         let sc = small_stream(s);
         let Some(base) = base_of(&sc) else { continue };
         let n = base.bytes.len() as u64;
-        ctx.enumerate(&format!("bursts-stream-{s}"), 16, n, |i| ByteCase { base: sc.clone(), byte: i as usize, only: None }, |c| {
+        ctx.enumerate(&format!("bursts-stream-{s}"), 16, n, |i| ByteCase { base: sc.clone(), byte: i as usize, only: None, sparse: false }, |c| {
             let o = check_byte(c);
             if o.failed() && c.only.is_none() {
                 // narrow to the single failing mutant for the replay file
@@ -376,7 +453,7 @@ pub fn run(ctx: &Ctx) {
                     for len in 1..=8u8 {
                         let npat = if len <= 2 { 1u16 } else { 1u16 << (len - 2) };
                         for pat in 0..npat {
-                            let one = ByteCase { base: c.base.clone(), byte: c.byte, only: Some((off, len, pat as u8)) };
+                            let one = ByteCase { base: c.base.clone(), byte: c.byte, only: Some((off, len, pat as u8)), sparse: false };
                             let o1 = check_byte(&one);
                             if o1.failed() {
                                 return o1;
@@ -395,8 +472,42 @@ pub fn run(ctx: &Ctx) {
             let n = base.bytes.len() as u64;
             // the first frames are all alike: enumerate the STREAMINFO, the first two and the last six frames
             let keep: Vec<u64> = (0..n).filter(|i| (*i as usize) < base.frames[2.min(base.frames.len() - 1)].0 || (*i as usize) >= base.frames[base.frames.len().saturating_sub(6)].0).collect();
-            ctx.enumerate("bursts-stream-many-frames", 16, keep.len() as u64, |i| ByteCase { base: sc.clone(), byte: keep[i as usize] as usize, only: None }, check_byte);
+            ctx.enumerate("bursts-stream-many-frames", 16, keep.len() as u64, |i| ByteCase { base: sc.clone(), byte: keep[i as usize] as usize, only: None, sparse: false }, check_byte);
         }
+    }
+    // consecutive frames that are one short burst apart (a burst can make a frame body a copy of its neighbour)
+    for (k, sc) in near_repeat_streams().into_iter().enumerate() {
+        let Some(base) = base_of(&sc) else { continue };
+        let n = base.bytes.len() as u64;
+        ctx.enumerate(&format!("bursts-near-repeated-frames-{k}"), 16, n, |i| ByteCase { base: sc.clone(), byte: i as usize, only: None, sparse: false }, check_byte);
+    }
+    // frames of 64 KiB and more: sampled byte positions (header, start and end of every subframe region, the
+    // CRC, spread positions), sparse burst set
+    for (k, sc) in large_frame_streams().into_iter().enumerate() {
+        if k > 0 && ctx.tier != Tier::Thorough {
+            break;
+        }
+        let Some(base) = base_of(&sc) else { continue };
+        let mut pos: Vec<usize> = vec![];
+        for f in &base.frames {
+            let (a, b) = (f.0, f.1);
+            pos.extend(a..(a + 24).min(b));
+            pos.extend(b.saturating_sub(6)..b);
+            let span = b - a;
+            let step = (span / if ctx.tier == Tier::Thorough { 600 } else { 150 }).max(1);
+            pos.extend((a..b).step_by(step).map(|p| p + (p * 7919) % step.min(b - p).max(1)));
+            for p in [65535usize, 65536, 65537, 131071, 131072] {
+                if a + p < b {
+                    pos.push(a + p);
+                }
+            }
+        }
+        pos.sort();
+        pos.dedup();
+        pos.retain(|p| *p < base.bytes.len());
+        let big = base.frames.iter().map(|f| f.1 - f.0).max().unwrap_or(0);
+        ctx.set_extra(&format!("large_frame_stream_{k}"), serde_json::json!({"largest_frame_bytes": big, "positions": pos.len()}));
+        ctx.enumerate(&format!("bursts-large-frame-{k}"), 16, pos.len() as u64, |i| ByteCase { base: sc.clone(), byte: pos[i as usize], only: None, sparse: true }, check_byte);
     }
     let per = ctx.tier.scale(60000, 8);
     ctx.search("random-bytes", 16, per, &|| (any::<u64>(), 0usize..400).prop_map(|(seed, len)| BlobCase { base: None, seed, muts: 0, fix_crc: false, len }), check_blob);
